@@ -7,6 +7,7 @@ V=$(pwd)
 ids="$@"; [ -z "$ids" ] && ids=$(ls seeded)
 for id in $ids; do
   prop=$(python3 -c "import json;m=json.load(open('seeded/$id/meta.json'));print(m.get('check',m['property']))")
+  if python3 -c "import json,sys;sys.exit(0 if json.load(open('seeded/$id/meta.json')).get('obsolete') else 1)"; then echo "$id $prop OBSOLETE (no longer breaks the property on the current tree, see meta.json)"; continue; fi
   if ! git -C $R apply --check $V/seeded/$id/patch.diff 2>/dev/null; then echo "$id $prop PATCH-DOES-NOT-APPLY"; continue; fi
   git -C $R apply $V/seeded/$id/patch.diff
   mkdir -p out/seeded
